@@ -1840,7 +1840,7 @@ func init() {
 		Name:   "VALUE-RECORD-COMPLETE",
 		Floor:  0,
 		ZeroOK: true,
-		Doc:   "the function that encodes the stored values of one field (it is handed the meta encoder as a function value) emits the same meta entries - field id, offset, length - for every value it is given: no path through one iteration of its loop over the values returns to the loop having called the meta encoder fewer times than another (an empty value is a value: skipping it shifts nothing in the data section but removes it from what the reader reports)",
+		Doc:    "the function that encodes the stored values of one field (it is handed the meta encoder as a function value) emits the same meta entries - field id, offset, length - for every value it is given: no path through one iteration of its loop over the values returns to the loop having called the meta encoder fewer times than another (an empty value is a value: skipping it shifts nothing in the data section but removes it from what the reader reports)",
 		Run: func(c *Ctx, scope string, r *Report) {
 			n := 0
 			for _, fn := range c.srcFns {
